@@ -33,6 +33,46 @@ STRENGTHENED = {
     'C18-A2': 'round 2; initially missed by C18: the extended-precision indicator is also read on like=, raw like=, element views, templates and deepcopies',
     'C18-B2': 'round 2; not caught by C18 (sharing of configuration/status is not a C18 statement); caught by C20 (xor / or routes added)',
     'C20-A2': 'round 2; initially missed by C20: constructor route with config=<another object\'s Config>',
+    'C01-A3': 'round 3; caught by C01 as it stood (float wrap fold: wrap rows with scaled values beyond 2^53)',
+    'C01-B3': 'round 3; caught by C01 as it stood (arrays mixing one huge element with ordinary ones)',
+    'C02-A3': 'round 3; first a harness error (ndarray.flags / np.copyto were missing from the overlay); not caught by C02 (the ill-formed object is the *parent* of a re-formatted view, which C02 does not look at again); caught by C20 (a view object that is re-formatted must leave its parent unchanged)',
+    'C02-B3': 'round 3; missed by C02 (scaled objects are only stored into, not re-formatted without a format change); caught by C17 (raw write / re-format rows of scaled objects)',
+    'C03-A3': 'round 3; caught by C03 as it stood',
+    'C03-B3': 'round 3; initially missed by C03 (register rows stopped at 26-bit operands): register rows with products of 64..80 bits (constant second factor) and a destination wider than the operands were added; the rows also exposed a genuine defect of the unchanged tree (open finding F-C03-wide-product-coarser-out), whose region (product with more than 53 significant bits) does not cover this change',
+    'C04-A3': 'round 3; initially missed by C04: new objects built next to a template (like= / template=) that carries raised flags must report their own write only',
+    'C04-B3': 'round 3; first a harness error (np.array_equal missing from the overlay), then missed: C04 now also stores values supplied as fixed-point objects with more fractional bits (set_val, call, setitem, equal)',
+    'C05-A3': 'round 3; caught by C05 as it stood (n_frac beyond 52 on the thorough-sampled grid)',
+    'C05-B3': 'round 3; initially missed by C05: the idempotence part now also stores the representable value in a new object built next to a reference with raised flags',
+    'C06-A3': "round 3; caught by C06 only because the check now reaches the property's stated domain (fractional patterns of 20 bits, if-conversion of the fraction search); it was out of reach for the f0 <= 8 bound of the earlier build",
+    'C06-B3': 'round 3; MISSED: needs float32 / float16 array carriers in size inference (C06 drives Python floats, ints and fixed-point objects only); not built in this round',
+    'C07-A3': 'round 3; initially missed by C07: AGE route "inplace" (operand used by every operator family, then given its codes by in-place element writes) added to props/common.py',
+    'C07-B3': 'round 3; initially missed by C07: AGE route "sticky_flags" (operands whose overflow / underflow flags were raised earlier)',
+    'C08-A3': 'round 3; initially missed by C08 (scalar operands only; C04 caught it): C08 now runs element-wise on (2,) arrays, flags are the union over the elements',
+    'C08-B3': 'round 3; caught by C08 as it stood (raw and repr methods disagree)',
+    'C09-A3': 'round 3; initially missed by C09 (the repr method of x/y was outside the model): correctly rounded float division by a constant is modelled (sx/term.py _fdiv_const) and the repr method is decided for concrete divisor codes, including divisors whose odd part is 49 or more',
+    'C09-B3': 'round 3; caught by C09 as it stood',
+    'C10-A3': 'round 3; caught by C10 as it stood (exact ties under around)',
+    'C10-B3': 'round 3; missed by C10 (sharing shows only after a later indexed write); caught by C20 once equal() / set_val(fxp) were among its derivation routes',
+    'C11-A3': 'round 3; MISSED: needs operands that are not C-contiguous (x.T, Fortran-ordered input); the overlay does not model memory order (ravel(order="K")), not built in this round',
+    'C11-B3': 'round 3; harness error only (exit 2, paths not encoded: format of a possibly negative integer): hex() of a signed 63-bit word raises OverflowError in the changed tree; no VIOLATION line',
+    'C12-A3': 'round 3; initially missed by C12: resize(dtype=...) of an object that already has the requested sizes; the new row also exposed a genuine defect (F-C12-wide-int-valued-resize, fixed)',
+    'C12-B3': 'round 3; caught by C12 as it stood',
+    'C13-A3': 'round 3; first a harness error (real NumPy scalars such as np.uint64(1 << n) were not accepted as overlay operands); caught by C13 since',
+    'C13-B3': 'round 3; harness error only (exit 2: np.nditer is not modelled): bitwise operators on arrays that are not C-contiguous; no VIOLATION line',
+    'C14-A3': 'round 3; initially missed by C14 (fresh operands): arrays with the "inplace" history (shifted before, then written element by element); the history warms every operator with zeros',
+    'C14-B3': 'round 3; caught by C14 as it stood',
+    'C15-A3': 'round 3; MISSED: cumprod(axis=None) of a column-major operand; the overlay does not model memory order',
+    'C15-B3': 'round 3; initially missed by C15 (clip bounds were in-range codes, and the quick sample rarely contained an unsigned clip): bounds now reach three ranges beyond the format on either side and an unsigned clip is always run; reported through the concrete probe of the un-encoded path (float -> uint64 cast of a negative bound)',
+    'C16-A3': 'round 3; caught by C16 as it stood',
+    'C16-B3': 'round 3; caught by C16 as it stood',
+    'C17-A3': 'round 3; initially missed by C17 (and a configuration timeout under load): scales 49/8 and 75/8 on formats of at most 8 bits (their reciprocals do not survive a multiplication)',
+    'C17-B3': 'round 3; caught by C17 as it stood',
+    'C18-A3': 'round 3; caught by C18 (wrap of codes between 1.5 and 2 moduli); the first run hung in a spinning solver pop and was repeated after the explorer learnt to abandon an interrupted scratch solver',
+    'C18-B3': 'round 3; initially missed by the quick tier of C18 (raw strings at 64 bits only; the thorough tier has 65 and 66): one signed 65/66-bit string row added to the quick tier',
+    'C19-A3': 'round 3; initially missed by C19: a wide operation, an in-place update of the operand, the wide operation again',
+    'C19-B3': 'round 3; caught by C19 as it stood',
+    'C20-A3': 'round 3; first a harness error (ndarray.flags missing), then missed: a view object that is re-formatted / rewritten as a whole must leave its parent unchanged',
+    'C20-B3': "round 3; initially missed by C20: aliasing between the object and the caller's ndarray in both directions (indexed write into the object, later write into the array), raw int64 arrays included",
     'C18-A': 'initially missed by the quick tier of C18 (one randomly chosen signedness for the 64-bit raw-string row): both signednesses are now always run',
 }
 def main():
